@@ -138,7 +138,11 @@ func drawProfile(w *World) {
 	for _, c := range []string{"send", "deliver", "load", "commit", "read", "api", "hook", "notify", "connect"} {
 		w.Prof.Weights[c] = []int{10, 10, 10, 1, 40, 3}[t.Draw(6)]
 	}
+	w.Prof.Weights["yield"] = []int{10, 40, 40, 3}[t.Draw(4)]
 	w.Prof.RunToBlock = []int{0, 0, 300, 800}[t.Draw(4)]
+	if t.Chance(500) {
+		w.OrderSalt = uint64(1 + t.Draw(1<<20))
+	}
 }
 
 func populate(n *Node, d *DAG, has map[cid.Cid]bool) {
